@@ -54,6 +54,22 @@ func Catalogue() map[string]Script {
 		mk("c01:reader-parked-two-callers", 4, 7, res(0, 1), res(1, 2), start(0), start(1), wok(0), wok(1), hold(1, 101), cancel(1),
 			res(2, 3), start(2), wok(2), rgo, reply(0, 100), reply(2, 102))
 		mk("c02:reader-parked-then-delivers", 4, 7, res(0, 11), start(0), wok(0), hold(0, 100), rgo)
+		// the reader is descheduled inside Read, the reply already taken off the connection, while the
+		// connection is closed under it (a sibling's failing Write, Close): the reply still belongs to its
+		// caller as long as that caller has not returned
+		rhold := func(c, tag int) Action { return Action{K: AFeedReadReply, C: c, Tag: tag} }
+		mk("c02:read-then-sibling-write-fails-before-lookup", 4, 7, res(0, 11), res(1, 12), start(0), start(1), whold(0),
+			rhold(0, 100), werr(1), rgo, rel(0))
+		mk("c02:read-then-close-before-lookup", 4, 7, res(0, 11), start(0), whold(0), rhold(0, 100), cls, rgo, rel(0))
+		mk("c02:read-then-sibling-write-fails-owner-still-in-write", 4, 7, res(0, 11), res(1, 12), start(0), start(1),
+			rhold(0, 100), werr(1), rgo, wok(0))
+		mk("c02:read-then-sibling-write-fails-owner-write-fails-too", 4, 7, res(0, 11), res(1, 12), start(0), start(1),
+			rhold(0, 100), werr(1), rgo, werr(0))
+		mk("c02:read-parked-owner-gone-before-lookup", 4, 7, res(0, 11), res(1, 12), start(0), start(1), wok(0), wok(1),
+			rhold(0, 100), cancel(0), res(2, 13), start(2), rgo, wok(2), reply(2, 102), reply(1, 101))
+		mk("c02:lookup-then-sibling-write-fails", 4, 7, res(0, 11), res(1, 12), start(0), start(1), whold(0),
+			hold(0, 100), werr(1), rgo, rel(0))
+		mk("c02:lookup-then-close", 4, 7, res(0, 11), start(0), whold(0), hold(0, 100), cls, rgo, rel(0))
 		// the last bytes of the reply come back from Read together with EOF (TLS close_notify behind the data)
 		mk("c02:reply-in-two-pieces", 4, 7, res(0, 11), res(1, 12), start(0), start(1), wok(0), wok(1),
 			Action{K: AFeedSplitReply, C: 0, Tag: 100}, Action{K: AFeedSplitReply, C: 1, Tag: 101})
@@ -137,7 +153,7 @@ func RandomNext(r *hx.RNG, focus string, maxSteps int) (Script, func(v *View) *A
 			if w == nil {
 				w = []int{10, 2, 12, 12, 4, 16, 3, 3, 2, 5, 1, 1}
 			}
-			w = append(append([]int{}, w...), 2, 3, 2, 1, 3) // runt datagram (UDP only), parked reader: hold / go, reply+EOF, reply in two pieces (TCP only)
+			w = append(append([]int{}, w...), 2, 3, 2, 1, 3, 3) // … reader parked inside Read; runt datagram (UDP only), parked reader: hold / go, reply+EOF, reply in two pieces (TCP only)
 			tot := 0
 			for _, x := range w {
 				tot += x
@@ -194,6 +210,9 @@ func RandomNext(r *hx.RNG, focus string, maxSteps int) (Script, func(v *View) *A
 			case 16:
 				tag++
 				a = Action{K: AFeedSplitReply, C: c, Tag: tag}
+			case 17:
+				tag++
+				a = Action{K: AFeedReadReply, C: c, Tag: tag}
 			}
 			// reserve picks the next unused call id; the others pick among existing ones
 			if a.K != AReserve && a.K != AFeedStray && a.K != AFeedErr && a.K != AClose && a.K != ASetQid && a.K != AExpire && a.K != ARunt && a.K != AReaderGo {
